@@ -26,6 +26,17 @@ func profileCase(c *vlib.Case, kind int, rigid bool) {
 		z0i = 0
 	}
 	minZ, maxZ := float64(z0i)*zs, float64(z0i+hz)*zs
+	if rng.Intn(4) == 0 {
+		// a very thin sheet (a film of 1e-6 .. 1e-12 units), at the origin or one unit above it;
+		// all heights stay exactly representable
+		zs = math.Ldexp(1, -(20 + rng.Intn(21)))
+		base := float64(rng.Intn(2))
+		if z0i < 0 {
+			z0i = -z0i
+		}
+		minZ, maxZ = base+float64(z0i)*zs, base+float64(z0i+hz)*zs
+		c.Count("profile.thin_sheets", 1)
+	}
 	api := "model3d.ProfileMesh"
 	w := mkWitness(api, rc.fam, rc.reg, rc.pl, rc.imgs)
 	w.Placement += fmt.Sprintf("; minZ=%g maxZ=%g", minZ, maxZ)
